@@ -19,6 +19,7 @@ OVERLAY = {
     HS + "/zz_c19_cli2_verif_test.go": "harness/overlay/httpauth/c19_cli2_verif_test.go",
     HS + "/zz_c19_obj_verif_test.go": "harness/overlay/httpauth/c19_obj_verif_test.go",
     HS + "/zz_c19_dflt_verif_test.go": "harness/overlay/httpauth/c19_dflt_verif_test.go",
+    HS + "/zz_c19_swap_verif_test.go": "harness/overlay/httpauth/c19_swap_verif_test.go",
     HS + "/zz_c19_e2e_verif_test.go": "harness/overlay/httpauth/c19_e2e_verif_test.go",
     HS + "/zz_c19_hook_verif.go": "harness/overlay/httpauth/c19_hook_verif.go",
 }
@@ -203,7 +204,9 @@ if __name__ == "__main__":
              "(mode 1: Next callback argument, status, response header); 8 sequences per round on ONE handshake-server object reused through "
              "Reset() (bearer of X, anonymous request, what was handed out replayed as bearer / as opaque, answers of other clients, random walk); "
              "two independent default-configured ServerPeerIDAuth instances (HmacKey unset) with challenges and tokens swapped between them and "
-             "states forged under the empty key and a known wrong key; 60 scripted adversarial response sequences to the real handshake "
+             "states forged under the empty key and a known wrong key; 96 malicious-server streams (honest signature under key A, then public-key=B "
+             "of the same / another key type / the client's own key in the unchecked bearer-only answer and after the end; client-initiated, "
+             "server-initiated and fallback flows) against the handshake client and as many against AuthenticatedDo over HTTP; 60 scripted adversarial response sequences to the real handshake "
              "client (kind 4) and 60 to the real ClientPeerIDAuth.AuthenticatedDo over HTTP (kind 5); 2 real-client/real-server runs over HTTP "
              "with stored and expired tokens; byte-level cases for genDataToSign (kind 1) and parsePeerIDAuthSchemeParams (kind 2). Every "
              "answer is compared with the Coq model (conform_case) and judged by the property monitor (monitor_case: a reported id needs a proof in this request; an emitted token must name a peer this request proves). A case is non-trivial "
